@@ -47,6 +47,10 @@ async def scenario(ev, A, P, N, backlog, durs, stop_at, wtt, arrivals=None, faul
                 m = await self.q.get(); i = n; n += 1
                 if fault == 'sentinel_payload' and i == 2:
                     ev.append(('malformed', -1, loop.time())); yield SENTINEL_COPY          # a malformed raw message (delivered before message 2) whose payload happens to equal the internal end-of-stream marker
+                if fault == 'malformed_burst' and i == 0:          # history: unusable messages first (garbage frames, a message naming an unknown task), then the backlog saturates the worker
+                    from taskiq.message import TaskiqMessage as _TM
+                    for j_ in range(4):
+                        ev.append(('malformed', -1, loop.time())); yield (b"{not json" if j_ % 2 == 0 else self.formatter.dumps(_TM(task_id=f'u{j_}', task_name='no-such-task', labels={}, labels_types=None, args=[], kwargs={})).message)
                 ev.append(('taken', i, loop.time()))
                 def ack(i=i):
                     if fault == 'ack_future':          # the acknowledgement is an awaitable that is not a coroutine (a Future, as `loop.run_in_executor(None, sync_ack)` returns): it completes a little later
@@ -76,6 +80,43 @@ async def scenario(ev, A, P, N, backlog, durs, stop_at, wtt, arrivals=None, faul
     ev.append(('returned', -1, loop.time()))
     feeder.cancel()
     return ev
+
+def sync_saturation(A=2, P=0, backlog=9):
+    """real threads, real clock: SYNC task functions that block in the worker's thread pool while a backlog waits; the bounds of C03/C04 hold for them too"""
+    import threading, time as _t
+    from concurrent.futures import ThreadPoolExecutor
+    from taskiq.abc.broker import AsyncBroker
+    from taskiq.receiver import Receiver
+    from taskiq.message import TaskiqMessage
+    AsyncBroker.global_task_registry = {}
+    lock = threading.Lock(); st = {'run': 0, 'mx': 0, 'taken': 0, 'done': 0, 'mxunf': 0}
+    async def main():
+        class B(AsyncBroker):
+            async def kick(self, m): pass
+            async def listen(self):
+                for i in range(backlog):
+                    with lock: st['taken'] += 1; st['mxunf'] = max(st['mxunf'], st['taken'] - st['done'])
+                    yield self.formatter.dumps(TaskiqMessage(task_id=f's{i}', task_name='blocking', labels={}, labels_types=None, args=[i], kwargs={})).message
+                await asyncio.Event().wait()
+        b = B()
+        def blocking(i):
+            with lock: st['run'] += 1; st['mx'] = max(st['mx'], st['run'])
+            _t.sleep(0.08)
+            with lock: st['run'] -= 1; st['done'] += 1
+        b.register_task(blocking, task_name='blocking')
+        with ThreadPoolExecutor(backlog) as pool:
+            r = Receiver(b, executor=pool, max_async_tasks=A, max_prefetch=P, run_startup=False); stop = asyncio.Event()
+            lt = asyncio.ensure_future(r.listen(stop)); t0 = _t.monotonic()
+            while st['done'] < backlog and _t.monotonic() - t0 < 15 and not lt.done(): await asyncio.sleep(0.02)          # generous: the verdict must not depend on machine load
+            stop.set()
+            try: await asyncio.wait_for(lt, 5)
+            except BaseException: lt.cancel()
+    asyncio.run(main())
+    f = []
+    if st['mx'] > A: f.append(f"C03: {st['mx']} blocking sync task functions ran at the same time in the thread pool with max_async_tasks={A}")
+    if st['mxunf'] > A + P + 1: f.append(f"C04: {st['mxunf']} messages taken from the broker and unfinished at one time with blocking sync tasks (bound A+P+1 = {A + P + 1}, backlog {backlog})")
+    if st['done'] < backlog: f.append(f"C03: only {st['done']} of {backlog} blocking sync tasks completed within 15 s (they need {0.08 * backlog / A:.2f} s; worker stalled)")
+    return f, dict(st)
 
 NEVER = 10 ** 9
 def evaluate(cfg, ev, hung):
@@ -118,8 +159,9 @@ def evaluate(cfg, ev, hung):
         after = [e for e in taken if e[2] > stop[2]]
         if len(after) > 1: f.append(f"C05: {len(after)} messages taken after the stop request")
     if N:
-        if len(taken) > N: f.append(f"C05/C01: max_tasks_to_execute={N} but {len(taken)} messages were taken from the broker")
-        if returned is not None and stop is None and backlog >= N and len(taken) < N: f.append(f"C05: only {len(taken)} of N={N} accepted")
+        n_all = len(taken) + len([e for e in ev if e[0] == 'malformed'])          # an unusable message taken from the broker counts towards the quota like any other
+        if n_all > N: f.append(f"C05/C01: max_tasks_to_execute={N} but {n_all} messages were taken from the broker")
+        if returned is not None and stop is None and backlog >= N and n_all < N: f.append(f"C05: only {n_all} of N={N} accepted")
     lr = next((e for e in ev if e[0] == 'listen_raised'), None)
     if lr is not None:
         f.append(f"C05: listen() raised {lr[2]} instead of returning after the accepted work completed")
@@ -151,7 +193,7 @@ def run(sc):
                                 if stop_at is None and not N: continue
                                 cfgs.append(dict(A=A, P=P, N=N or None, backlog=(A or 3) + P + (N or 0) + 5, durs=durs, stop_at=stop_at, wtt=wtt, arrivals=arrivals, fault=None))
                                 if arrivals is None and durs in ([1.0], [0.5, 30.0, 2.0]) and wtt is None and stop_at is not None:
-                                    for fault in ('sentinel_payload', 'ack_raises', 'ack_cancelled', 'ack_future', 'task_cancelled'):
+                                    for fault in ('sentinel_payload', 'malformed_burst', 'ack_raises', 'ack_cancelled', 'ack_future', 'task_cancelled'):
                                         cfgs.append(dict(A=A, P=P, N=N or None, backlog=(A or 3) + P + (N or 0) + 5, durs=durs, stop_at=stop_at, wtt=wtt, arrivals=arrivals, fault=fault))
     fails = []; n = 0; stats = []
     for cfg in cfgs:
@@ -166,6 +208,8 @@ def run(sc):
         n += 1
         fl, st = evaluate(dict(cfg, N=cfg['N'] or 0), ev, hung)
         if fl: fails.append({'key': json.dumps({k: v for k, v in cfg.items()}, sort_keys=True), 'config': cfg, 'failed_clauses': fl, 'observed': st})
+    fl, st = sync_saturation(); n += 1
+    if fl: fails.append({'key': 'sync-saturation', 'config': {'A': 2, 'P': 0, 'backlog': 9, 'task': 'sync, blocks 0.08 s in the thread pool', 'clock': 'real'}, 'failed_clauses': fl, 'observed': st})
     return {'reproduced': bool(fails), 'runs': n, 'n_failures': len(fails), 'failures': fails[:400]}
 if __name__ == '__main__':
     sc = json.load(open(sys.argv[1])) if len(sys.argv) > 1 else {}
